@@ -3,7 +3,7 @@ import json
 import vf, recvlib, C12
 from recvlib import hexN
 
-IMPORTS = C12.IMPORTS.replace("From Opcua Require Import Model.RecvBase Model.RecvMerge.", "From Coq Require Import ZArith.\nFrom Opcua Require Import Model.RecvBase Model.RecvMerge Model.RecvChan.") + """
+IMPORTS = "From Coq Require Import ZArith.\n" + C12.IMPORTS + """
 Definition mkstate (keys : list N) : cstate :=
   fold_left (fun s k => cstep true s (Install 7 (9 + k) k 0%Z 3600000000000%Z)) keys (cinit 0%Z).
 Definition sch (k t s r : N) (d : bytes) : schunk := {| sc_chan := 7; sc_key := k; sc_chunk := Build_chunk t s r d |}."""
@@ -11,12 +11,12 @@ CTYPE = "list N * list schunk * list iout * N * list bytes"
 AGREE = """  let '(keys, h, outs, nrej, origs) := c in
   let st := mkstate keys in
   all2 (out_agree origs) (snd (recv_all 16 1048576 [] (accepted st h))) outs
-  && (nlen (filter (fun x => negb (accepts st (sc_chan x) (sc_key x))) h) =? nrej)"""
+  && (nlen h - nlen (accepted st h) =? nrej)"""
 
 
 def term(c):
-    outs = [o for o in (c["outs"] or []) if o["k"] != "secerr"]
-    nrej = sum(1 for o in (c["outs"] or []) if o["k"] == "secerr")
+    outs = [o for o in (c["outs"] or []) if o["k"] not in ("secerr", "badseq")]
+    nrej = sum(1 for o in (c["outs"] or []) if o["k"] in ("secerr", "badseq"))
     h = ";".join("sch %d %d %d %d %s" % (x["key"], x["t"], x["seq"], x["req"], hexN(x["data"])) for x in c["history"])
     return "([%s], [%s], [%s], %d, [%s])" % (";".join(str(k) for k in c["keys"]), h, ";".join(C12.iout(o) for o in outs), nrej,
                                              ";".join(hexN(x) for x in c["originals"]))
@@ -39,7 +39,7 @@ def oracle(c):
     outs = c["outs"] or []
     if any(o["k"] == "panic" for o in outs):
         return "panic", "receive path panicked"
-    got = [(o["req"], o.get("body")) for o in outs if o["k"] != "secerr"]
+    got = [(o["req"], o.get("body")) for o in outs if o["k"] not in ("secerr", "badseq")]
     gotd = [(o["req"], o.get("body")) for o in outs if o["k"] == "deliver"]
     exp = expected_without_copies(c)
     if gotd == exp and len(got) == len(exp):
